@@ -698,6 +698,25 @@ def s_val_negelse(e, x):
     return y
 
 
+def s_val_storedneg(e, x):
+    # the negated verdict is stored first: the If condition is an SSA `!t` instruction (go/ssa only swaps the successors
+    # for `if !validate(x)`); the datum is used on the arm where validation FAILED
+    y = e.out("S"); b = e.tmp("bool"); n = e.tmp("bool"); e.f.validate(b, x); e.f.not_(n, b)
+    with e.f.if_var(n):
+        e.f.copy(y, x)
+    return y
+
+
+def s_val_storedneg_else(e, x):
+    # ... and on the arm where it SUCCEEDED (validated: no report demanded; keeps the polarity honest both ways)
+    y = e.out("S"); b = e.tmp("bool"); n = e.tmp("bool"); t = e.tmp("string"); e.f.validate(b, x); e.f.not_(n, b)
+    with e.f.if_var(n) as br:
+        e.f.lit(t, "bad")
+        with br.else_():
+            e.f.copy(y, x)
+    return y
+
+
 def s_val_guard(e, x):
     y = e.out("S"); b = e.tmp("bool"); e.f.validate(b, x)
     with e.f.if_var(b, neg=True):
@@ -897,6 +916,8 @@ STEPS = {
     "san_mix": ("S", "S", "role", s_san_mix),
     "san_branch": ("S", "S", "role", s_san_branch),
     "val_then": ("S", "S", "role", s_val_then),
+    "val_storedneg": ("S", "S", "role", s_val_storedneg),
+    "val_storedneg_else": ("S", "S", "role", s_val_storedneg_else),
     "val_else": ("S", "S", "role", s_val_else),
     "val_negelse": ("S", "S", "role", s_val_negelse),
     "val_guard": ("S", "S", "role", s_val_guard),
